@@ -72,8 +72,52 @@ def pmod : UInt64 := 2305843009213693951
 
 def u64OfInt1 (x : Int) : UInt64 := UInt64.ofNat (x + 1).toNat
 
+/-! `conc` (harness/c09_conc.go): the result line is what the sub-cases answer one after the other on fresh buffers —
+the sequential model, no new obligation: `fastLCS_anymode_history_independent` says that a worker's own buffer
+gives the same answers. The concurrent runs are the harness's business. -/
+
+def noUpper (s : Seq) : Bool := s.all (fun c => !(65 ≤ c && c ≤ 90))
+
+/-- one sub-case `kind buf e A B` -/
+def concSub (kind buf e a b : String) : Option String :=
+  match e.toInt?, unhex a, unhex b with
+  | some e, some a, some b =>
+    if !(noUpper a && noUpper b) || a.length > 40000 || b.length > 40000 then none
+    else if kind = "d1" then
+      if buf ≠ "-" ∨ e ≠ 0 then none else some (showD1E (runD1 a b))
+    else if kind = "lcs" ∨ kind = "egf" then
+      if (buf ≠ "w" ∧ buf ≠ "n") ∨ e < -1 ∨ e > 100000 then none else
+      let egf : Bool := kind = "egf"
+      -- the structural layer computes whole rows: only when one of the sequences is short (as lcslong does)
+      let r := if min a.length b.length ≤ 64 then runLcs a b e egf none else fastLCSEGFScoreByte a b e egf none
+      some (match r with
+        | .ok (s, l, en) => if egf then s!"{s} {l} {en}" else s!"{s} {l}"
+        | .error .panic => "panic"
+        | .error .fuel => "layer-mismatch")
+    else none
+  | _, _, _ => none
+
+def concSubs : List String → Option (List String)
+  | [] => some []
+  | k :: bf :: e :: a :: b :: rest =>
+    match concSub k bf e a b, concSubs rest with
+    | some x, some r => some (x :: r)
+    | _, _ => none
+  | _ => none
+
+def runConc (g r n : String) (rest : List String) : String :=
+  match g.toNat?, r.toNat?, n.toNat? with
+  | some g, some r, some n =>
+    if g < 1 ∨ g > 64 ∨ r < 1 ∨ r > 200 ∨ n < 1 ∨ n > 32 ∨ rest.length ≠ 5 * n then "bad-op" else
+    match concSubs rest with
+    | some xs => " ; ".intercalate xs
+    | none => "bad-op"
+  | _, _, _ => "bad-op"
+
 def run (line : String) : String :=
   match words line with
+  | "conc" :: g :: r :: n :: rest => runConc g r n rest
+  | "race" :: "conc" :: g :: r :: n :: rest => runConc g r n rest
   | ["samerow", x] =>
     match x.toNat? with
     | some x =>
